@@ -11,8 +11,10 @@ import (
 	"encoding/json"
 	"fmt"
 	"os"
+	"reflect"
 	"strings"
 	"sync"
+	"time"
 
 	el "github.com/hashicorp/eventlogger"
 	"github.com/hashicorp/eventlogger/filters/encrypt"
@@ -21,18 +23,24 @@ import (
 )
 
 type COp struct {
-	K    string `json:"k"`              // rotate rotpayload event
-	W    int    `json:"w"`              // wrapper: 0 = nil (leave), 1..4
-	S    int    `json:"s"`              // salt: -1 nil, 0 empty (non-nil), 1..3
-	I    int    `json:"i"`              // info: likewise
-	EWI  bool   `json:"ewi,omitempty"`  // the payload implements EventWrapperInfo
-	F    int    `json:"f,omitempty"`    // which filter the operation goes to: 0 = the case's filter, 1 = a second filter built from the SAME salt / info slices
-	Orig bool   `json:"orig,omitempty"` // rotate: back to the very slices the filters were built from (the caller's configuration)
-	SL   bool   `json:"sl,omitempty"`   // the payload has slice-typed fields; Data lists the elements (2..5, equal and empty ones included)
-	TM   bool   `json:"tm,omitempty"`   // the payload is a Taggable map: data[0] as []byte and as string under hmac tags, data[1] likewise under encrypt tags
-	EvID int    `json:"evid,omitempty"` // event id "ev<n>", 0 = ""
-	Data []int  `json:"data,omitempty"` // data ids of the five filtered fields
-	Sh   string `json:"sh,omitempty"`   // callback cases: shape of the payload - "mid" (a Taggable field between other fields), "top" (the payload itself a Taggable struct), "map" (a Taggable map)
+	K     string    `json:"k"`               // rotate rotpayload event
+	W     int       `json:"w"`               // wrapper: 0 = nil (leave), 1..4
+	S     int       `json:"s"`               // salt: -1 nil, 0 empty (non-nil), 1..3
+	I     int       `json:"i"`               // info: likewise
+	EWI   bool      `json:"ewi,omitempty"`   // the payload implements EventWrapperInfo
+	F     int       `json:"f,omitempty"`     // which filter the operation goes to: 0 = the case's filter, 1 = a second filter built from the SAME salt / info slices
+	Orig  bool      `json:"orig,omitempty"`  // rotate: back to the very slices the filters were built from (the caller's configuration)
+	SL    bool      `json:"sl,omitempty"`    // the payload has slice-typed fields; Data lists the elements (2..5, equal and empty ones included)
+	TM    bool      `json:"tm,omitempty"`    // the payload is a Taggable map: data[0] as []byte and as string under hmac tags, data[1] likewise under encrypt tags
+	EvID  int       `json:"evid,omitempty"`  // event id "ev<n>", 0 = ""
+	Data  []int     `json:"data,omitempty"`  // data ids of the five filtered fields
+	Ov    [3]string `json:"ov,omitempty"`    // event: Filter.FilterOperationOverrides in force (public, sensitive, secret): "" absent, none redact encrypt hmac
+	TF    []TField  `json:"tf,omitempty"`    // event: the payload's filtered values carry THESE class tags (struct tags / PointerTags of a Taggable map field)
+	V     bool      `json:"v,omitempty"`     // rotpayload: a RotV handed over BY VALUE (RotateWrapper through value receivers)
+	Again bool      `json:"again,omitempty"` // event: the very payload object of the previous event is sent once more
+	Nil   bool      `json:"nil,omitempty"`   // rotate: a nil Option leads the list
+	Rep   bool      `json:"rep,omitempty"`   // rotate: every option is given twice, a decoy value first (the last one wins); WithWrapper(nil) where no wrapper is set
+	Sh    string    `json:"sh,omitempty"`    // callback cases: shape of the payload - "mid" (a Taggable field between other fields), "top" (the payload itself a Taggable struct), "map" (a Taggable map)
 }
 type CCase struct {
 	ID        int    `json:"id"`
@@ -43,7 +51,17 @@ type CCase struct {
 	Alias     bool   `json:"alias,omitempty"`     // further filters share the initial salt / info slices; they are emitted as the cases with the next ids
 	NF        int    `json:"nf,omitempty"`        // number of filters of an aliasing case (default 2)
 	ViaRotate bool   `json:"viarotate,omitempty"` // the shared slices are handed to the filters through Rotate(WithSalt(s), WithInfo(i)) instead of the exported fields
+	RP        bool   `json:"rp,omitempty"`        // ops[0] is a rotation payload whose accessors (Wrapper(), HmacSalt(), HmacInfo()) each start one of the events ops[1:] on the same filter, on another goroutine, and wait a bounded time for it
 	CB        bool   `json:"cb,omitempty"`        // ops[0] is an event whose own Tags() callback rotates the filter as ops[1] says (Rotate or a rotation payload), part way through the event
+}
+
+// a filtered value of a tagged event: the text of its class tag (P: "classification,filter" of a PointerTag naming a key of a
+// Taggable map field; otherwise a struct tag), string or []byte, datum
+type TField struct {
+	T string `json:"t"`
+	P bool   `json:"p,omitempty"`
+	B bool   `json:"b,omitempty"`
+	D int    `json:"d"`
 }
 
 type CPlain struct {
@@ -315,10 +333,135 @@ func execCB(c CCase, cd cands) cresult {
 	}
 	cb := fmt.Sprintf("{| cb_init := {| f_wrap := %s; f_salt := %s; f_info := %s |}; cb_ewi := %s;\n      cb_pre := %s; cb_rot := (%s, %s, %s);\n      cb_post := %s;\n      cb_after := %s;\n      cb_obs := %s |}",
 		optKeyLit(c.Init.W), optBstrLit(c.Init.S), optBstrLit(c.Init.I), ewi, valsLit(pre), optKeyLit(rot.W), optBstrLit(rot.S), optBstrLit(rot.I), valsLit(post), valsLit(after), obs)
-	res.lit = fmt.Sprintf("{| cc_id := %s; cc_init := {| f_wrap := %s; f_salt := %s; f_info := %s |};\n   cc_steps := [];\n   cc_conc := []; cc_cbs := [%s]; cc_caller := true |}",
+	res.lit = fmt.Sprintf("{| cc_id := %s; cc_init := {| f_wrap := %s; f_salt := %s; f_info := %s |};\n   cc_steps := [];\n   cc_conc := []; cc_cbs := [%s]; cc_rps := []; cc_caller := true |}",
 		hc.N(c.ID), optKeyLit(c.Init.W), optBstrLit(c.Init.S), optBstrLit(c.Init.I), cb)
 	return res
 }
+
+// ---------- events whose values carry their own class tags ----------
+// struct fields first, then the keys of the Taggable map field (the order the observations are read in)
+func normTF(tf []TField) []TField {
+	var a, b []TField
+	for _, f := range tf {
+		if f.P {
+			b = append(b, f)
+		} else {
+			a = append(a, f)
+		}
+	}
+	return append(a, b...)
+}
+
+// a pointer to a struct made for the tags (reflect.StructOf): fields F1.. (string / []byte) with the class tags, and a field T of
+// the Taggable map type TMap whose PointerTags name its keys k1..; with wrapper info it sits behind EWI.P
+func mkTagged(o COp) interface{} {
+	tf := normTF(o.TF)
+	var sf []reflect.StructField
+	var ptags []PTag
+	nS := 0
+	for _, f := range tf {
+		if f.P {
+			cl, op := f.T, ""
+			if i := strings.Index(f.T, ","); i >= 0 {
+				cl, op = f.T[:i], f.T[i+1:]
+			}
+			ptags = append(ptags, PTag{Ptr: fmt.Sprintf("/k%d", len(ptags)+1), Class: cl, Op: op})
+			continue
+		}
+		nS++
+		t := tString
+		if f.B {
+			t = tBytes
+		}
+		sf = append(sf, reflect.StructField{Name: fmt.Sprintf("F%d", nS), Type: t, Tag: reflect.StructTag(fmt.Sprintf(`class:"%s"`, f.T))})
+	}
+	if len(ptags) > 0 {
+		sf = append(sf, reflect.StructField{Name: "T", Type: tTMap})
+	}
+	pv := reflect.New(reflect.StructOf(sf))
+	var tm TMap
+	if len(ptags) > 0 {
+		tm = TMap{"__id": regTags(ptags)}
+	}
+	i, k := 0, 0
+	for _, f := range tf {
+		d := append([]byte{}, dataPool[f.D]...)
+		var v interface{} = string(d)
+		if f.B {
+			v = d
+		}
+		if f.P {
+			k++
+			tm[fmt.Sprintf("k%d", k)] = v
+			continue
+		}
+		pv.Elem().Field(i).Set(reflect.ValueOf(v))
+		i++
+	}
+	if tm != nil {
+		pv.Elem().FieldByName("T").Set(reflect.ValueOf(tm))
+	}
+	if o.EWI {
+		return &EWI{EvID: evID(o.EvID), Salt: poolBytes("salt", o.S), Info: poolBytes("info", o.I), P: pv.Interface()}
+	}
+	return pv.Interface()
+}
+
+func taggedOut(o COp, p interface{}) (out []string, ok bool) {
+	defer func() {
+		if recover() != nil {
+			ok = false
+		}
+	}()
+	if e, is := p.(*EWI); is {
+		p = e.P
+	}
+	rv := reflect.ValueOf(p).Elem()
+	i, k := 0, 0
+	for _, f := range normTF(o.TF) {
+		var v reflect.Value
+		if f.P {
+			k++
+			v = rv.FieldByName("T").MapIndex(reflect.ValueOf(fmt.Sprintf("k%d", k)))
+			if v.Kind() == reflect.Interface {
+				v = v.Elem()
+			}
+		} else {
+			v = rv.Field(i)
+			i++
+		}
+		if v.Kind() == reflect.String {
+			out = append(out, v.String())
+		} else {
+			out = append(out, string(v.Bytes()))
+		}
+	}
+	return out, true
+}
+
+func ovLit(ov [3]string) string {
+	_, a := opOf(ov[0])
+	_, b := opOf(ov[1])
+	_, c := opOf(ov[2])
+	return fmt.Sprintf("{| ov_public := %s; ov_sensitive := %s; ov_secret := %s |}", a, b, c)
+}
+
+// ---------- rotation payloads whose accessors have side effects ----------
+type RotHook struct {
+	W    wrapping.Wrapper
+	Salt []byte
+	Info []byte
+	at   func(k int)
+	once [3]sync.Once
+}
+
+func (r *RotHook) Wrapper() wrapping.Wrapper { r.once[0].Do(func() { r.at(0) }); return r.W }
+func (r *RotHook) HmacSalt() []byte          { r.once[1].Do(func() { r.at(1) }); return r.Salt }
+func (r *RotHook) HmacInfo() []byte          { r.once[2].Do(func() { r.at(2) }); return r.Info }
+
+// how long an accessor waits for the event it started (an atomic rotation makes that event wait for the rotation instead: the
+// accessor then gives up after this time; nothing in the verdict depends on which of the two happens)
+const hookWait = 25 * time.Millisecond
 
 // CSlices: slice-typed fields under hmac and under encrypt: every ELEMENT is a value of its own
 type CSlices struct {
@@ -760,6 +903,9 @@ func execCrypto(c CCase) cresult {
 	if c.CB {
 		return execCB(c, cd)
 	}
+	if c.RP && len(c.Ops) > 0 {
+		return execRP(c, cd)
+	}
 	origSalt, origInfo := poolBytes("salt", c.Init.S), poolBytes("info", c.Init.I)
 	mk := func() *encrypt.Filter {
 		if c.ViaRotate {
@@ -785,6 +931,21 @@ func execCrypto(c CCase) cresult {
 	var res cresult
 	stepsOf := make([][]string, len(filters))
 	rotated, shipped := false, false
+	var lastP interface{}
+	// every forwarded event is read again at the end of the history: what a later call does must not show in it
+	type keptEvent struct {
+		o    COp
+		out  *el.Event
+		vals []string
+	}
+	var kept []keptEvent
+	readVals := func(o COp, out *el.Event) []string {
+		if len(o.TF) > 0 {
+			v, _ := taggedOut(o, out.Payload)
+			return v
+		}
+		return outFields(out.Payload)
+	}
 	// the bytes of a value (blob / mac / framed text) go to Coq for the framing check (Base64.v) while the case's budget lasts:
 	// long plaintexts and long key ids make long blobs, and the byte literals are what a shard's evaluation time goes into
 	budget := 2500
@@ -793,7 +954,7 @@ func execCrypto(c CCase) cresult {
 	}
 	for n, o := range c.Ops {
 		f := filters[o.F%len(filters)]
-		var opLit, obs string
+		var opLit, obs, whole string
 		func() {
 			defer func() {
 				if r := recover(); r != nil {
@@ -801,6 +962,8 @@ func execCrypto(c CCase) cresult {
 					res.panics = append(res.panics, fmt.Sprintf("case %d step %d: %v", c.ID, n, r))
 				}
 			}()
+			// the override table in force at this operation (an exported field, assigned between the operations); only events carry one
+			setOverrides(f, Cfg{Ov: o.Ov})
 			switch o.K {
 			case "rotate":
 				if o.Orig {
@@ -808,14 +971,36 @@ func execCrypto(c CCase) cresult {
 					f.Rotate(encrypt.WithSalt(origSalt), encrypt.WithInfo(origInfo))
 				} else {
 					opLit = fmt.Sprintf("ORotate N %s %s %s", optKeyLit(o.W), optBstrLit(o.S), optBstrLit(o.I))
-					f.Rotate(rotOpts(o)...)
+					opts := rotOpts(o)
+					if o.Rep {
+						// every option twice, a decoy first: the last one wins; an explicit nil wrapper leaves the wrapper alone
+						decoy := rotOpts(COp{W: 1 + o.W%4, S: 3, I: 2})
+						if o.W <= 0 {
+							decoy[0] = encrypt.WithWrapper(nil)
+						}
+						if o.S < 0 {
+							decoy[1] = nil
+						}
+						if o.I < 0 {
+							decoy[2] = nil
+						}
+						opts = append(decoy, opts...)
+					}
+					if o.Nil {
+						opts = append([]encrypt.Option{nil}, append(opts, nil)...)
+					}
+					f.Rotate(opts...)
 				}
 				obs = "CoNone"
 				rotated = true
 			case "rotpayload":
 				opLit = fmt.Sprintf("ORotPayload N %s %s %s", optKeyLit(o.W), optBstrLit(o.S), optBstrLit(o.I))
 				rp := &Rot{W: cWrapper(o.W), Salt: poolBytes("salt", o.S), Info: poolBytes("info", o.I)}
-				out, err := f.Process(ctx, &el.Event{Type: "t", CreatedAt: fixedTime, Payload: rp})
+				var rpl interface{} = rp
+				if o.V {
+					rpl = RotV{W: rp.W, Salt: rp.Salt, Info: rp.Info}
+				}
+				out, err := f.Process(ctx, &el.Event{Type: "t", CreatedAt: fixedTime, Payload: rpl})
 				// the payload's own slices are scribbled over afterwards: the filter must not have kept them
 				for _, b := range [][]byte{rp.Salt, rp.Info} {
 					for i := range b {
@@ -831,79 +1016,68 @@ func execCrypto(c CCase) cresult {
 					obs = "(CoValues [])"
 				}
 				rotated = true
-			default:
-				ewi := "None"
-				if o.EWI {
-					id := "[]"
-					if o.EvID > 0 {
-						id = "[" + hc.N(canonEv(o.EvID)) + "]"
-					}
-					ewi = fmt.Sprintf("(Some (%s, %s, %s))", id, optBstrLit(o.S), optBstrLit(o.I))
-				}
-				// which data id and which operation each output field carries
-				dataOf := o.Data
-				isHmac := func(i int) bool { return i == 2 || i == 3 }
-				if o.TM {
-					dataOf = []int{o.Data[0], o.Data[0], o.Data[1], o.Data[1]}
-					isHmac = func(i int) bool { return i < 2 }
-				}
-				if o.SL {
-					n := len(o.Data)
-					dataOf = append(append(append([]int{}, o.Data...), o.Data...), o.Data...)
-					for i := 0; i < n && i < 2; i++ {
-						dataOf = append(dataOf, o.Data[i])
-					}
-					isHmac = func(i int) bool { return i < 3*n }
-				}
-				vals := make([]string, len(dataOf))
-				for i, d := range dataOf {
-					cop := "CEnc []"
-					if isHmac(i) {
-						cop = "CHmac"
-					}
-					vals[i] = fmt.Sprintf("(%s, %s)", cop, bstrLit2(d))
-				}
-				opLit = fmt.Sprintf("OEvent N %s %s", ewi, hc.List(vals))
-				p := mkPayload(o)
-				out, err := f.Process(ctx, &el.Event{Type: "t", CreatedAt: fixedTime, Payload: p})
-				switch {
-				case err != nil && out == nil:
+			case "reopen", "type":
+				// methods the property does not mention: identity steps of the model
+				opLit, obs = "ORotate N None None None", "CoNone"
+				if o.K == "reopen" && f.Reopen() != nil || o.K == "type" && f.Type() != el.NodeTypeFilter {
 					obs = "CoErr"
-					res.log = append(res.log, fmt.Sprintf("step %d: error %v", n, err))
-				case out == nil:
-					obs = "CoConsumed"
+				}
+			case "setfield":
+				// the exported fields assigned directly between two events (no event in flight): W 0 = left alone, S / I -2 = left
+				// alone, -1 = set to nil (the empty salt / info, as far as the key in force goes)
+				ws, ss, is := "None", "None", "None"
+				if o.W > 0 {
+					f.Wrapper, ws = cWrapper(o.W), optKeyLit(o.W)
+				}
+				if o.S >= -1 {
+					f.HmacSalt, ss = poolBytes("salt", o.S), "(Some "+bstrLit(o.S)+")"
+				}
+				if o.I >= -1 {
+					f.HmacInfo, is = poolBytes("info", o.I), "(Some "+bstrLit(o.I)+")"
+				}
+				opLit, obs = fmt.Sprintf("ORotate N %s %s %s", ws, ss, is), "CoNone"
+				rotated = true
+			default:
+				ewi, vals, dataOf, isHmac := eventModel(o)
+				var p interface{}
+				switch {
+				case o.Again && lastP != nil:
+					p = lastP
+				case len(o.TF) > 0:
+					p = mkTagged(o)
 				default:
-					fs := outFields(out.Payload)
-					// the bytes of blob / mac / text go to Coq (Base64.v framing check) for the special cases and for the first event of a history
-					ship := c.Gen == "special" || !shipped
-					shipped = true
-					items := make([]string, len(fs))
-					for i, s := range fs {
-						orig := dataPool[dataOf[i]]
-						if isHmac(i) {
-							var a attribution
-							sv := ship && 2*len(s) <= budget
-							if sv {
-								budget -= 2 * len(s)
-							}
-							items[i], a = attributeHmac(s, orig, dataOf[i], cd, sv)
-							res.log = append(res.log, fmt.Sprintf("step %d value %d: hmac under key %d salt %d info %d (found %v)", n, i, a.kid, a.sid, a.iid, a.ok))
-						} else {
-							sv := ship && 2*len(s) <= budget
-							if sv {
-								budget -= 2 * len(s)
-							}
-							items[i] = attributeEnc(s, orig, cd.keys, sv)
-							res.log = append(res.log, fmt.Sprintf("step %d value %d: %s", n, i, shortItem(items[i])))
-						}
-					}
-					obs = "(CoValues " + hc.List(items) + ")"
-					if rotated {
-						res.nontriv = true
-					}
+					p = mkPayload(o)
+				}
+				lastP = p
+				in := &el.Event{Type: "t", CreatedAt: fixedTime, Payload: p}
+				// contexts of every kind in turn: the key in force does not depend on the context
+				ectx, ecancel := ctxOf([]string{"", "cancelled", "", "deadline", "custom", "", "cause"}[n%7])
+				out, err := f.Process(ectx, in)
+				ecancel()
+				if out != nil && out != in {
+					kept = append(kept, keptEvent{o, out, readVals(o, out)})
+				}
+				ship := c.Gen == "special" || !shipped
+				shipped = true
+				if len(o.TF) > 0 {
+					whole = taggedStep(n, o, ewi, in, out, err, cd, &res)
+				} else {
+					opLit = fmt.Sprintf("OEvent N %s %s", ewi, vals)
+					obs = observeEvent(fmt.Sprintf("step %d", n), out, err, dataOf, isHmac, cd, ship, &budget, &res)
+				}
+				if rotated && out != nil {
+					res.nontriv = true
 				}
 			}
 		}()
+		if whole != "" && obs != "CoPanic" {
+			stepsOf[o.F%len(filters)] = append(stepsOf[o.F%len(filters)], whole)
+			continue
+		}
+		if opLit == "" { // a panic before the operation was described: the model's event, observed as a panic
+			ewi, vals, _, _ := eventModel(o)
+			opLit = fmt.Sprintf("OEvent N %s %s", ewi, vals)
+		}
 		stepsOf[o.F%len(filters)] = append(stepsOf[o.F%len(filters)], fmt.Sprintf("(%s, %s)", opLit, obs))
 	}
 	steps := stepsOf[0]
@@ -911,12 +1085,224 @@ func execCrypto(c CCase) cresult {
 	concValues += len(conc)
 	// the slices the caller configured the filters with must still hold what the caller put there
 	callerOK := string(origSalt) == string(poolBytes("salt", c.Init.S)) && string(origInfo) == string(poolBytes("info", c.Init.I))
-	res.lit = fmt.Sprintf("{| cc_id := %s; cc_init := {| f_wrap := %s; f_salt := %s; f_info := %s |};\n   cc_steps := %s;\n   cc_conc := %s; cc_cbs := []; cc_caller := %s |}",
+	for _, k := range kept {
+		now := readVals(k.o, k.out)
+		if len(now) != len(k.vals) {
+			callerOK = false
+		}
+		for i := range now {
+			if i < len(k.vals) && now[i] != k.vals[i] {
+				callerOK = false
+				res.log = append(res.log, "an event forwarded earlier changed after later calls")
+			}
+		}
+	}
+	res.lit = fmt.Sprintf("{| cc_id := %s; cc_init := {| f_wrap := %s; f_salt := %s; f_info := %s |};\n   cc_steps := %s;\n   cc_conc := %s; cc_cbs := []; cc_rps := []; cc_caller := %s |}",
 		hc.N(c.ID), optKeyLit(c.Init.W), initS, initI, hc.List(steps), hc.List(conc), hc.B(callerOK))
 	for i := 1; i < len(filters); i++ {
-		res.more = append(res.more, fmt.Sprintf("{| cc_id := %s; cc_init := {| f_wrap := %s; f_salt := %s; f_info := %s |};\n   cc_steps := %s;\n   cc_conc := []; cc_cbs := []; cc_caller := true |}",
+		res.more = append(res.more, fmt.Sprintf("{| cc_id := %s; cc_init := {| f_wrap := %s; f_salt := %s; f_info := %s |};\n   cc_steps := %s;\n   cc_conc := []; cc_cbs := []; cc_rps := []; cc_caller := true |}",
 			hc.N(c.ID+i), optKeyLit(c.Init.W), initS, initI, hc.List(stepsOf[i])))
 	}
+	return res
+}
+
+// the model's side of an event: its wrapper info, the values its tags dictate (with the default operations; a tagged event's
+// values are resolved by Tag.v, see taggedStep), and per output field the datum and whether it is an HMAC
+func eventModel(o COp) (ewi, vals string, dataOf []int, isHmac func(int) bool) {
+	ewi = "None"
+	if o.EWI {
+		id := "[]"
+		if o.EvID > 0 {
+			id = "[" + hc.N(canonEv(o.EvID)) + "]"
+		}
+		ewi = fmt.Sprintf("(Some (%s, %s, %s))", id, optBstrLit(o.S), optBstrLit(o.I))
+	}
+	if len(o.TF) > 0 {
+		return ewi, "[]", nil, func(int) bool { return false }
+	}
+	dataOf = o.Data
+	isHmac = func(i int) bool { return i == 2 || i == 3 }
+	if o.TM {
+		dataOf = []int{o.Data[0], o.Data[0], o.Data[1], o.Data[1]}
+		isHmac = func(i int) bool { return i < 2 }
+	}
+	if o.SL {
+		n := len(o.Data)
+		dataOf = append(append(append([]int{}, o.Data...), o.Data...), o.Data...)
+		for i := 0; i < n && i < 2; i++ {
+			dataOf = append(dataOf, o.Data[i])
+		}
+		isHmac = func(i int) bool { return i < 3*n }
+	}
+	items := make([]string, len(dataOf))
+	for i, d := range dataOf {
+		cop := "CEnc []"
+		if isHmac(i) {
+			cop = "CHmac"
+		}
+		items[i] = fmt.Sprintf("(%s, %s)", cop, bstrLit2(d))
+	}
+	return ewi, hc.List(items), dataOf, isHmac
+}
+
+// what an event gave: error, consumed, or every value attributed among the candidates of the case
+func observeEvent(what string, out *el.Event, err error, dataOf []int, isHmac func(int) bool, cd cands, ship bool, budget *int, res *cresult) string {
+	switch {
+	case err != nil && out == nil:
+		res.log = append(res.log, fmt.Sprintf("%s: error %v", what, err))
+		return "CoErr"
+	case out == nil:
+		return "CoConsumed"
+	}
+	fs := outFields(out.Payload)
+	items := make([]string, len(fs))
+	for i, s := range fs {
+		if i >= len(dataOf) {
+			items[i] = "VUnknown"
+			continue
+		}
+		orig := dataPool[dataOf[i]]
+		sv := ship && 2*len(s) <= *budget
+		if sv {
+			*budget -= 2 * len(s)
+		}
+		if isHmac(i) {
+			var a attribution
+			items[i], a = attributeHmac(s, orig, dataOf[i], cd, sv)
+			res.log = append(res.log, fmt.Sprintf("%s value %d: hmac under key %d salt %d info %d (found %v)", what, i, a.kid, a.sid, a.iid, a.ok))
+		} else {
+			items[i] = attributeEnc(s, orig, cd.keys, sv)
+			res.log = append(res.log, fmt.Sprintf("%s value %d: %s", what, i, shortItem(items[i])))
+		}
+	}
+	return "(CoValues " + hc.List(items) + ")"
+}
+
+// a tagged event as a step of the history: (tstep overrides wrapper-info fields result); Tag.v resolves what each tag dictates
+func taggedStep(n int, o COp, ewi string, in, out *el.Event, err error, cd cands, res *cresult) string {
+	tf := normTF(o.TF)
+	fields := make([]string, len(tf))
+	for i, f := range tf {
+		fields[i] = fmt.Sprintf("{| tf_tag := %s; tf_data := %s |}", q(f.T), bstrLit2(f.D))
+	}
+	r := ""
+	switch {
+	case err != nil && out == nil:
+		r = "TrErr"
+		res.log = append(res.log, fmt.Sprintf("step %d: error %v", n, err))
+	case out == nil:
+		r = "TrConsumed"
+	case out == in:
+		r = "TrSame"
+	default:
+		vals, ok := taggedOut(o, out.Payload)
+		if !ok || len(vals) != len(tf) {
+			r = "(TrOut [])"
+			break
+		}
+		items := make([]string, len(vals))
+		for i, s := range vals {
+			orig := dataPool[tf[i].D]
+			items[i] = fmt.Sprintf("(TText %s %s)", hc.B(s == string(orig)), hc.B(s == "[REDACTED]"))
+			switch {
+			case strings.HasPrefix(s, "hmac-sha256:"):
+				if lit, a := attributeHmac(s, orig, tf[i].D, cd, false); a.ok {
+					items[i] = "(TVal " + lit + ")"
+				}
+			case strings.HasPrefix(s, "encrypted:"):
+				if lit := attributeEnc(s, orig, cd.keys, false); lit != "VUnknown" {
+					items[i] = "(TVal " + lit + ")"
+				}
+			}
+			res.log = append(res.log, fmt.Sprintf("step %d value %d (tag %q): %s", n, i, tf[i].T, shortItem(items[i])))
+		}
+		r = "(TrOut " + hc.List(items) + ")"
+	}
+	return fmt.Sprintf("(tstep %s %s %s %s)", ovLit(o.Ov), ewi, hc.List(fields), r)
+}
+
+// a rotation payload whose accessors each start an event on the same filter (another goroutine, bounded wait)
+func execRP(c CCase, cd cands) cresult {
+	var res cresult
+	ctx := context.Background()
+	cd.mru = nil
+	f := &encrypt.Filter{Wrapper: cWrapper(c.Init.W), HmacSalt: poolBytes("salt", c.Init.S), HmacInfo: poolBytes("info", c.Init.I)}
+	rot := c.Ops[0]
+	evs := c.Ops[1:]
+	type slot struct {
+		o    COp
+		out  *el.Event
+		err  error
+		pan  interface{}
+		done chan struct{}
+	}
+	var slots [3]*slot
+	rp := &RotHook{W: cWrapper(rot.W), Salt: poolBytes("salt", rot.S), Info: poolBytes("info", rot.I)}
+	rp.at = func(k int) {
+		if len(evs) == 0 {
+			return
+		}
+		sl := &slot{o: evs[k%len(evs)], done: make(chan struct{})}
+		slots[k] = sl
+		go func() {
+			defer close(sl.done)
+			defer func() {
+				if r := recover(); r != nil {
+					sl.pan = r
+				}
+			}()
+			sl.out, sl.err = f.Process(ctx, &el.Event{Type: "t", CreatedAt: fixedTime, Payload: mkPayload(sl.o)})
+		}()
+		select {
+		case <-sl.done:
+		case <-time.After(hookWait):
+		}
+	}
+	consumed := false
+	func() {
+		defer func() {
+			if r := recover(); r != nil {
+				res.panics = append(res.panics, fmt.Sprintf("case %d (rotation payload): %v", c.ID, r))
+			}
+		}()
+		out, err := f.Process(ctx, &el.Event{Type: "t", CreatedAt: fixedTime, Payload: rp})
+		consumed = out == nil && err == nil
+	}()
+	budget := 0
+	var hooked []string
+	for k, sl := range slots {
+		if sl == nil {
+			continue
+		}
+		ewi, vals, dataOf, isHmac := eventModel(sl.o)
+		obs := ""
+		select {
+		case <-sl.done:
+			if sl.pan != nil {
+				obs = "CoPanic"
+				res.panics = append(res.panics, fmt.Sprintf("case %d (event started by accessor %d): %v", c.ID, k, sl.pan))
+			} else {
+				obs = observeEvent(fmt.Sprintf("event started by %s", []string{"Wrapper()", "HmacSalt()", "HmacInfo()"}[k]), sl.out, sl.err, dataOf, isHmac, cd, false, &budget, &res)
+			}
+		case <-time.After(20 * time.Second):
+			obs = "CoPanic" // it never returned
+			res.panics = append(res.panics, fmt.Sprintf("case %d: the event started by accessor %d did not return", c.ID, k))
+		}
+		hooked = append(hooked, fmt.Sprintf("(%s, %s, %s)", ewi, vals, obs))
+	}
+	after := COp{K: "event", S: -1, I: -1, Data: []int{1, 1, 1, 1, 1}}
+	_, avals, adata, ahm := eventModel(after)
+	aobs := "CoPanic"
+	func() {
+		defer func() { recover() }()
+		out, err := f.Process(ctx, &el.Event{Type: "t", CreatedAt: fixedTime, Payload: mkPayload(after)})
+		aobs = observeEvent("next event", out, err, adata, ahm, cd, false, &budget, &res)
+	}()
+	res.nontriv = true
+	rpLit := fmt.Sprintf("{| rp_init := {| f_wrap := %s; f_salt := %s; f_info := %s |}; rp_rot := (%s, %s, %s); rp_consumed := %s;\n      rp_hooked := %s;\n      rp_after := %s; rp_after_obs := %s |}",
+		optKeyLit(c.Init.W), optBstrLit(c.Init.S), optBstrLit(c.Init.I), optKeyLit(rot.W), optBstrLit(rot.S), optBstrLit(rot.I), hc.B(consumed), hc.List(hooked), avals, aobs)
+	res.lit = fmt.Sprintf("{| cc_id := %s; cc_init := {| f_wrap := %s; f_salt := %s; f_info := %s |};\n   cc_steps := [];\n   cc_conc := []; cc_cbs := []; cc_rps := [%s]; cc_caller := true |}",
+		hc.N(c.ID), optKeyLit(c.Init.W), optBstrLit(c.Init.S), optBstrLit(c.Init.I), rpLit)
 	return res
 }
 
@@ -952,7 +1338,12 @@ func concurrentPart(c CCase, cd cands, res *cresult) []string {
 			default:
 			}
 			k := 1 + j%3
-			f.Rotate(encrypt.WithWrapper(cWrapper(k)), encrypt.WithSalt(poolBytes("salt", k)), encrypt.WithInfo(poolBytes("info", k)))
+			if j%2 == 0 {
+				f.Rotate(encrypt.WithWrapper(cWrapper(k)), encrypt.WithSalt(poolBytes("salt", k)), encrypt.WithInfo(poolBytes("info", k)))
+			} else {
+				// the other route: a rotation payload changing wrapper, salt and info together
+				_, _ = f.Process(ctx, &el.Event{Type: "t", CreatedAt: fixedTime, Payload: &Rot{W: cWrapper(k), Salt: poolBytes("salt", k), Info: poolBytes("info", k)}})
+			}
 			last = k
 		}
 	}()
@@ -1006,7 +1397,16 @@ func concurrentPart(c CCase, cd cands, res *cresult) []string {
 			}
 		}(g)
 	}
-	wg.Wait()
+	// under a watchdog: a filter that never returns is a violation, not a hung check
+	finished := make(chan struct{})
+	go func() { wg.Wait(); close(finished) }()
+	select {
+	case <-finished:
+	case <-time.After(120 * time.Second):
+		res.panics = append(res.panics, fmt.Sprintf("case %d: events processed concurrently with rotations did not return within 120 s", c.ID))
+		close(stop)
+		return []string{bad}
+	}
 	close(stop)
 	rot.Wait()
 	// events started after the last Rotate returned: every one under the key, salt and info now in force
@@ -1160,6 +1560,121 @@ func cbGrid() []CCase {
 	return out
 }
 
+// class tags in look-alike spellings: Tag.v says what each resolves to (an unknown classification is redacted, an unknown
+// operation word falls back to the classification's default, operation words are case-insensitive, nothing is trimmed)
+var cTagClasses = []string{"public", "sensitive", "secret", "sensitive", "secret", "Secret", "secret ", "SECRET", " secret", "bogus", ""}
+var cTagOps = []string{"<absent>", "", "redact", "encrypt", "hmac-sha256", "encrypt", "hmac-sha256", "HMAC-SHA256", "Encrypt", "encrypt ", " encrypt", "bogus", "unknown"}
+var cOvTexts = []string{"", "", "none", "redact", "encrypt", "hmac"}
+
+func (g *gen) cTag(pointer bool) string {
+	c := cTagClasses[g.r.Intn(len(cTagClasses))]
+	if pointer {
+		c = cTagClasses[g.r.Intn(5)] // a PointerTag with an unknown classification ends Process with an error (Encrypt.v, C09): not here
+	}
+	o := cTagOps[g.r.Intn(len(cTagOps))]
+	if o == "<absent>" {
+		if pointer {
+			return c + ","
+		}
+		return c
+	}
+	return c + "," + o
+}
+
+// an event whose values carry their own class tags (struct tags and PointerTags), under an override table
+func (g *gen) taggedEvent() COp {
+	r := g.r
+	o := COp{K: "event", S: -1, I: -1}
+	if r.Chance(4, 5) {
+		for j := range o.Ov {
+			o.Ov[j] = cOvTexts[r.Intn(len(cOvTexts))]
+		}
+	}
+	if r.Chance(1, 3) {
+		// no class-level operation that needs a key: the values that are encrypted / HMAC-ed get there by their own tag
+		o.Ov = [3]string{[]string{"", "none"}[r.Intn(2)], []string{"none", "redact"}[r.Intn(2)], []string{"", "none", "redact"}[r.Intn(3)]}
+	}
+	for n := 2 + r.Intn(5); n > 0; n-- {
+		p := r.Chance(1, 3)
+		o.TF = append(o.TF, TField{T: g.cTag(p), P: p, B: r.Chance(1, 3), D: r.Intn(len(dataPool))})
+	}
+	if r.Chance(1, 2) {
+		o.EWI = true
+		o.EvID = 1 + r.Intn(len(evIDs)-1)
+		if r.Chance(1, 10) {
+			o.EvID = 0
+		}
+		if r.Chance(1, 3) {
+			o.S = g.comp()
+		}
+		if r.Chance(1, 3) {
+			o.I = g.comp()
+		}
+	}
+	return o
+}
+
+// a rotation payload whose accessors start events on the same filter
+func (g *gen) rpCase() CCase {
+	r := g.r
+	c := CCase{Gen: "rotation-payload-accessors", RP: true, Init: COp{W: 1 + r.Intn(nWrappers), S: g.comp(), I: g.comp()}}
+	c.Ops = []COp{{K: "rotpayload", W: r.Intn(nWrappers + 1), S: g.comp(), I: g.comp()}}
+	for n := 1 + r.Intn(3); n > 0; n-- {
+		c.Ops = append(c.Ops, rpEvent(r.Intn(4), 1+r.Intn(len(evIDs)-1)))
+	}
+	return c
+}
+
+func rpEvent(kind, evid int) COp {
+	all := []int{1, 1, 1, 1, 1}
+	switch kind {
+	case 1:
+		return COp{K: "event", EWI: true, EvID: evid, S: -1, I: -1, Data: all} // falls back to the filter's salt / info
+	case 2:
+		return COp{K: "event", SL: true, S: -1, I: -1, Data: []int{1, 2, 1}}
+	case 3:
+		return COp{K: "event", EWI: true, EvID: evid, S: 3, I: -1, Data: all}
+	}
+	return COp{K: "event", S: -1, I: -1, Data: all}
+}
+
+func rpGrid() []CCase {
+	var out []CCase
+	n := 0
+	for _, in := range [][3]int{{1, 1, 1}, {1, -1, -1}, {2, 10, 12}} {
+		for _, rt := range [][3]int{{2, 2, 2}, {3, 2, -1}, {3, -1, 2}, {0, 2, 2}, {3, 0, 0}, {4, 14, 13}} {
+			c := CCase{Gen: "rotation-payload-accessors", RP: true, Init: COp{W: in[0], S: in[1], I: in[2]}, Ops: []COp{{K: "rotpayload", W: rt[0], S: rt[1], I: rt[2]}}}
+			switch n % 3 {
+			case 0:
+				c.Ops = append(c.Ops, rpEvent(0, 1))
+			case 1:
+				c.Ops = append(c.Ops, rpEvent(1, 1+n%3))
+			default:
+				c.Ops = append(c.Ops, rpEvent(0, 1), rpEvent(1, 2), rpEvent(2, 1))
+			}
+			out = append(out, c)
+			n++
+		}
+	}
+	return out
+}
+
+// override tables that leave no / one / every class-level operation needing a key x values that name their own operation in
+// a struct tag or a PointerTag x events without wrapper info, with an event id, with salt and info of their own
+func taggedGrid() []CCase {
+	fields := []TField{{T: "secret,encrypt", D: 1}, {T: "secret,hmac-sha256", D: 2, B: true}, {T: "sensitive", D: 9}, {T: "sensitive,hmac-sha256", D: 4}, {T: "secret", D: 1}, {T: "public", D: 2},
+		{T: "Secret,encrypt", D: 9}, {T: "secret,HMAC-SHA256", D: 1}, {T: "secret,encrypt", P: true, D: 2}, {T: "sensitive,hmac-sha256", P: true, B: true, D: 1}, {T: "secret,", P: true, D: 9}, {T: "sensitive,Encrypt", P: true, D: 4}}
+	var out []CCase
+	for _, ov := range [][3]string{{"", "redact", ""}, {"", "none", ""}, {"", "redact", "redact"}, {"none", "none", "redact"}, {"", "hmac", ""}, {"", "", ""}, {"none", "none", "none"}, {"", "encrypt", "hmac"}, {"hmac", "none", "none"}} {
+		ev := func(ewi bool, id, s, i int) COp {
+			return COp{K: "event", Ov: ov, TF: fields, EWI: ewi, EvID: id, S: s, I: i}
+		}
+		out = append(out, CCase{Gen: "tagged-overrides", Init: COp{W: 1, S: 1, I: 1}, Ops: []COp{ev(false, 0, -1, -1), ev(true, 1, -1, -1), {K: "rotate", W: 2, S: 2, I: -1},
+			ev(true, 2, 3, 3), ev(false, 0, -1, -1), ev(true, 0, -1, -1), {K: "event", S: -1, I: -1, Data: []int{1, 1, 1, 1, 1}}}})
+	}
+	return out
+}
+
 func (g *gen) cryptoCase(n int) CCase {
 	r := g.r
 	pick := func() int { return r.Intn(len(dataPool)) }
@@ -1170,12 +1685,42 @@ func (g *gen) cryptoCase(n int) CCase {
 	}
 	for i := 0; i < n; i++ {
 		switch x := r.Intn(10); {
+		case x < 2 && r.Chance(1, 4):
+			// the rest of the exported surface: identity steps, and the fields assigned directly
+			switch r.Intn(3) {
+			case 0:
+				c.Ops = append(c.Ops, COp{K: "reopen"})
+			case 1:
+				c.Ops = append(c.Ops, COp{K: "type"})
+			default:
+				o := COp{K: "setfield", S: -2, I: -2}
+				if r.Bool() {
+					o.W = 1 + r.Intn(nWrappers)
+				}
+				if r.Bool() {
+					o.S = comp()
+				}
+				if r.Bool() {
+					o.I = comp()
+				}
+				c.Ops = append(c.Ops, o)
+			}
 		case x < 2:
-			c.Ops = append(c.Ops, COp{K: "rotate", W: r.Intn(nWrappers + 1), S: comp(), I: comp()})
+			c.Ops = append(c.Ops, COp{K: "rotate", W: r.Intn(nWrappers + 1), S: comp(), I: comp(), Nil: r.Chance(1, 5), Rep: r.Chance(1, 5)})
 		case x < 4:
-			c.Ops = append(c.Ops, COp{K: "rotpayload", W: r.Intn(nWrappers + 1), S: comp(), I: comp()})
+			c.Ops = append(c.Ops, COp{K: "rotpayload", W: r.Intn(nWrappers + 1), S: comp(), I: comp(), V: r.Chance(1, 4)})
 		default:
 			o := COp{K: "event", S: -1, I: -1, Data: []int{pick(), pick(), pick(), pick(), pick()}}
+			if c.Init.W > 0 && r.Chance(1, 5) {
+				c.Ops = append(c.Ops, g.taggedEvent())
+				if i+1 < n && r.Chance(1, 8) {
+					again := c.Ops[len(c.Ops)-1]
+					again.Again = true
+					c.Ops = append(c.Ops, again)
+					i++
+				}
+				continue
+			}
 			if r.Chance(1, 6) {
 				o.TM = true
 			} else if r.Chance(1, 6) {
@@ -1199,12 +1744,17 @@ func (g *gen) cryptoCase(n int) CCase {
 			}
 			if r.Chance(1, 3) && i > 0 { // the same data again: determinism across events and rotations
 				for _, p := range c.Ops {
-					if p.K == "event" && p.SL == o.SL {
+					if p.K == "event" && p.SL == o.SL && len(p.TF) == 0 {
 						o.Data = append([]int{}, p.Data...)
 					}
 				}
 			}
 			c.Ops = append(c.Ops, o)
+			if i+1 < n && r.Chance(1, 8) {
+				o.Again = true // the same payload object once more (the first send worked on a copy)
+				c.Ops = append(c.Ops, o)
+				i++
+			}
 		}
 	}
 	return c
@@ -1290,6 +1840,8 @@ func cryptoSpecials() []CCase {
 	out = append(out, CCase{Gen: "concurrent", Init: COp{W: 1, S: 1, I: 1}, Conc: 150})
 	out = append(out, CCase{Gen: "callback-rotation", Init: COp{W: 1, S: 1, I: 1}, CB: true})
 	out = append(out, cbGrid()...)
+	out = append(out, rpGrid()...)
+	out = append(out, taggedGrid()...)
 	// the length alphabet: salt and info (on the filter through Rotate and through a rotation payload, and on the event), event id
 	// and key id of 1, 63, 64, 65, 127, 128, 129 and 1100 bytes; consecutive values share every byte of the shorter one, so each
 	// rotation from one to the next must change the digests of the same data
@@ -1319,7 +1871,7 @@ func cryptoSpecials() []CCase {
 func mainCrypto(out, prefix string, perShard, n int, corpus string, concOnly bool) {
 	initDataPool()
 	cf := &hc.CaseFile{Dir: out, Prefix: prefix, PerShard: perShard * 68 / 250, Type: "list ccase",
-		Header: "From Coq Require Import List NArith String.\nFrom Verif Require Import Base64 Crypto Run_Crypto.\nImport ListNotations.\nOpen Scope string_scope.\nOpen Scope list_scope.",
+		Header: "From Coq Require Import List NArith String.\nFrom Verif Require Import Tag Base64 Crypto Run_Crypto.\nImport ListNotations.\nOpen Scope string_scope.\nOpen Scope list_scope.",
 		Footer: "Definition M := Eval vm_compute in mismatches cases.\nPrint M."}
 	side, err := os.Create(out + "/" + prefix + ".jsonl")
 	if err != nil {
@@ -1367,6 +1919,15 @@ func mainCrypto(out, prefix string, perShard, n int, corpus string, concOnly boo
 			if o.K == "event" && o.EWI {
 				stats["op:event-with-wrapper-info"]++
 			}
+			if len(o.TF) > 0 {
+				stats["op:event-with-tagged-values"]++
+				if o.Ov != [3]string{} {
+					stats["op:event-under-overrides"]++
+				}
+			}
+			if o.Nil || o.Rep {
+				stats["op:rotate-nil-or-repeated-options"]++
+			}
 		}
 		panics = append(panics, r.panics...)
 		c.ID = 0
@@ -1401,7 +1962,7 @@ func mainCrypto(out, prefix string, perShard, n int, corpus string, concOnly boo
 		// evaluation time goes into its byte literals
 		var heavy []CCase
 		for _, c := range cryptoSpecials() {
-			if c.CB {
+			if c.CB || c.RP {
 				emit(c)
 			} else {
 				heavy = append(heavy, c)
@@ -1420,6 +1981,9 @@ func mainCrypto(out, prefix string, perShard, n int, corpus string, concOnly boo
 			emit(g.cryptoCase(4 + g.r.Intn(9)))
 			if i%4 == 0 {
 				emit(g.cbCase())
+			}
+			if i%30 == 7 {
+				emit(g.rpCase())
 			}
 		}
 		for _, c := range heavy {
